@@ -686,11 +686,26 @@ def replay(unit_name, inp, obligation=""):
             return None
         refresh()
         bad = check("initial")
-        ops = inp.get("ops") or [("filt", 0, [1]), ("man", [0, 2]), ("filt", 0, [1, 3]), ("filt", 0, []),
-                                 ("filt", 1, [0]), ("filt", 0, [2]), ("filt", 1, []), ("filt", 0, [])]
+        ops = inp.get("ops") or [("filt", 0, [1]), ("man", [0, 2]), ("temp", 1), ("filt", 0, [1, 3]), ("filt", 0, []),
+                                 ("temp", 2), ("filt", 1, [0]), ("filt", 0, [2]), ("filt", 1, []), ("filt", 0, [])]
+        tmp_name = "pyvc_tmp"
+        try:
+            dclab.register_temporary_feature(tmp_name, is_scalar=True)
+        except ValueError:
+            pass
         for i, op in enumerate(ops):
             if bad:
                 break
+            if op[0] == "temp":
+                vals = np.random.RandomState(op[1]).uniform(0, 1, n)
+                dclab.set_temporary_feature(root, tmp_name, vals)
+                refresh()
+                for lvl in range(1, depth + 1):
+                    ids = root_ids(lvl)
+                    got = np.array(chain[lvl][tmp_name][:])
+                    if len(ids) and not np.allclose(got, vals[ids]):
+                        bad = f"after op {i} {op}: level {lvl} temporary feature is stale"
+                continue
             if op[0] == "filt":
                 lvl = min(op[1], depth - 1)
                 ds = chain[lvl]
@@ -712,9 +727,181 @@ def replay(unit_name, inp, obligation=""):
 
 
 def bounded_inputs(unit_name, rng):
+    import random as _r
     for depth in (1, 2, 3):
         for seed in (1, 2):
             yield {"depth": depth, "n": 9, "seed": seed}
+    r = _r.Random(7)
+    for t in range(120):
+        depth = r.choice((2, 2, 3))
+        ops = []
+        for _ in range(r.randint(4, 9)):
+            if r.random() < 0.3:
+                ops.append(("man", sorted(r.sample(range(6), r.randint(1, 3)))))
+            else:
+                ops.append(("filt", r.randint(0, depth - 1), sorted(r.sample(range(8), r.randint(0, 3)))))
+        yield {"depth": depth, "n": 9, "seed": t, "ops": ops}
     yield {"depth": 2, "n": 9, "seed": 3,
            "ops": [("filt", 0, [0]), ("man", [1, 3]), ("filt", 1, [1]), ("filt", 1, [1]), ("filt", 1, []),
                    ("filt", 0, [0, 4]), ("filt", 0, [0])]}
+
+
+from pyvc.sym import Sym as _SymBase   # noqa: E402
+
+
+# ---------------------------------------------------------------- parent-change detection
+class HashTok(_SymBase):
+    """digest (A-HASH: injective) of the listed array values / digests"""
+
+    def __init__(self, parts):
+        self.parts = parts          # list of SArr snapshots or HashTok
+
+    def arrays(self):
+        out = []
+        for p in self.parts:
+            out.extend(p.arrays() if isinstance(p, HashTok) else [p])
+        return out
+
+
+class HashObj(Contract):
+    """util.hashobj(x): md5 of obj2bytes(x); for an array the digest of its bytes,
+    for a list of digests (fixed-length hex strings) the digest of their
+    concatenation -- injective on such arguments (A-HASH)"""
+    name = "hashobj"
+    trusted = True
+
+    def __call__(self, interp, obj):
+        from pyvc.engine import Unsupported
+        if isinstance(obj, SArr) and not getattr(obj, "is_list", False):
+            snap = SArr(obj.n, obj.a, obj.kind)
+            snap.src_uid = obj.uid
+            return HashTok([snap])
+        if isinstance(obj, list) and all(isinstance(x, HashTok) for x in obj):
+            return HashTok(list(obj))
+        raise Unsupported("hashobj of " + type(obj).__name__)
+
+
+def hash_eq(h1, h2):
+    """formula: two digests are equal (A-HASH: iff the hashed values are equal)"""
+    a1, a2 = h1.arrays(), h2.arrays()
+    if len(a1) != len(a2):
+        return z3.BoolVal(False)
+    k = z3.Int("k!h")
+    conj = []
+    for x, y in zip(a1, a2):
+        conj.append(z3.And(x.n == y.n, z3.ForAll([k], z3.Implies(z3.And(k >= 0, k < x.n), x.sel(k) == y.sel(k)))))
+    return z3.And(*conj) if conj else z3.BoolVal(True)
+
+
+from pyvc import models as _models   # noqa: E402
+_geq_prev = _models.generic_eq
+
+
+def _geq_hash(interp, a, b):
+    if isinstance(a, HashTok) and isinstance(b, HashTok):
+        return wrap(hash_eq(a, b))
+    if isinstance(a, HashTok) or isinstance(b, HashTok):
+        return False
+    return _geq_prev(interp, a, b)
+
+
+_models.generic_eq = _geq_hash
+
+
+class ParentChangedUnit(Contract):
+    """parent_changed (depth d): False only if the filters of *all* ancestors are
+    what they were when update_parent stored the hash -- so an unnoticed change of
+    the child -> root mapping is impossible; and False whenever nothing changed."""
+    path = HFILT
+    module = HFMOD
+    qualname = "HierarchyFilter.parent_changed"
+    classes = {"HierarchyFilter": (HFILT, "HierarchyFilter")}
+    class_modules = {"HierarchyFilter": HFMOD}
+    inline = {"HierarchyFilter._get_parent_hash"}
+    params = ("self",)
+
+    def __init__(self, depth):
+        self.depth = depth
+        self.name = f"HierarchyFilter.parent_changed[depth {depth}]"
+        super().__init__()
+        self.callees = {"hashobj": HashObj()}
+
+    def inputs(self, ctx):
+        # ancestors: parent (level d-1) ... root (level 0); each with old and current filter
+        olds, news = [], []
+        node = None
+        for lvl in range(self.depth):
+            n = ctx.int(f"n{lvl}", lo=0)
+            o = ctx.arr(f"old_filter{lvl}", "bool", inp=True)
+            c = ctx.arr(f"filter{lvl}", "bool", inp=True)
+            olds.append(o)
+            news.append(c)
+            fields = {"filter": ctx.obj("Filter", {"all": c}), "format": "hdf5" if lvl == 0 else "hierarchy"}
+            if node is not None:
+                fields["hparent"] = node
+            node = ctx.obj("DS" if lvl == 0 else "Hier", fields, name=f"level{lvl}")
+        self._g = NS(dict(olds=olds, news=news))
+        # the stored hash is what update_parent computes (same code path, executed on the old filters):
+        # UpdateParentUnit proves that it covers every ancestor, parent first
+        stored = HashTok([HashTok([o]) for o in reversed(olds)]) if self._covers_all() else HashTok([olds[-1]])
+        return {"self": ctx.obj("HierarchyFilter", {"_parent_rtdc_ds": node, "_parent_hash": stored}, name="self")}
+
+    def _covers_all(self):
+        # does the code under contract hash every ancestor?  (decided from the update_parent unit's shape:
+        # the current tree defines _get_parent_hash)
+        from pyvc import source
+        return source.load(HFILT).get("HierarchyFilter._get_parent_hash") is not None
+
+    def ensures(self, ctx, old, a, result):
+        g = self._g
+        k = z3.Int("k!p")
+        same = z3.And(*[z3.And(o.n == c.n, z3.ForAll([k], z3.Implies(z3.And(k >= 0, k < o.n), o.sel(k) == c.sel(k))))
+                        for o, c in zip(g.olds, g.news)])
+        r = to_z3(result, "bool") if not isinstance(result, bool) else z3.BoolVal(result)
+        return [("not reported as changed => no ancestor's filter changed (the child -> root mapping is the old one)",
+                 z3.Implies(z3.Not(r), same)),
+                ("nothing changed => not reported as changed", z3.Implies(same, z3.Not(r)))]
+
+
+class UpdateParentUnit(Contract):
+    """update_parent(parent): remembers the parent and a digest that covers the
+    filter of every ancestor (parent first, root last)"""
+    path = HFILT
+    module = HFMOD
+    qualname = "HierarchyFilter.update_parent"
+    classes = {"HierarchyFilter": (HFILT, "HierarchyFilter")}
+    class_modules = {"HierarchyFilter": HFMOD}
+    inline = {"HierarchyFilter._get_parent_hash"}
+    params = ("self", "parent_rtdc_ds")
+
+    def __init__(self, depth):
+        self.depth = depth
+        self.name = f"HierarchyFilter.update_parent[depth {depth}]"
+        super().__init__()
+        self.callees = {"hashobj": HashObj()}
+
+    def inputs(self, ctx):
+        arrs = []
+        node = None
+        for lvl in range(self.depth):
+            c = ctx.arr(f"filter{lvl}", "bool", inp=True)
+            arrs.append(c)
+            fields = {"filter": ctx.obj("Filter", {"all": c}), "format": "hdf5" if lvl == 0 else "hierarchy"}
+            if node is not None:
+                fields["hparent"] = node
+            node = ctx.obj("DS" if lvl == 0 else "Hier", fields, name=f"level{lvl}")
+        self._g = NS(dict(arrs=arrs, parent=node))
+        return {"self": ctx.obj("HierarchyFilter", {}, name="self"), "parent_rtdc_ds": node}
+
+    def ensures(self, ctx, old, a, result):
+        g = self._g
+        h = a.self.fields.get("_parent_hash")
+        covered = [getattr(x, "src_uid", None) for x in h.arrays()] if isinstance(h, HashTok) else []
+        return [("the parent is remembered", z3.BoolVal(a.self.fields.get("_parent_rtdc_ds") is g.parent)),
+                ("the stored digest covers the filter of every ancestor (parent first, root last)",
+                 z3.BoolVal(covered == [x.uid for x in reversed(g.arrs)]))]
+
+
+UNITS += [ParentChangedUnit(1), ParentChangedUnit(2), ParentChangedUnit(3),
+          UpdateParentUnit(1), UpdateParentUnit(2), UpdateParentUnit(3)]
+TRUSTED += [HashObj()]
